@@ -71,6 +71,108 @@ def unbound_in(table, module_names, path=()):
     return out
 
 
+def _header_exprs(st):
+    """the expressions a statement evaluates itself (the bodies of compound statements are statements of their own)"""
+    if isinstance(st, (ast.If, ast.While)):
+        return [st.test]
+    if isinstance(st, ast.For):
+        return [st.iter]
+    if isinstance(st, ast.With):
+        return [i.context_expr for i in st.items]
+    if isinstance(st, ast.Try):
+        return []
+    if isinstance(st, (ast.FunctionDef, ast.AsyncFunctionDef)):
+        return list(st.decorator_list) + [d for d in st.args.defaults + st.args.kw_defaults if d is not None]
+    if isinstance(st, ast.ClassDef):
+        return list(st.decorator_list) + list(st.bases)
+    return [st]
+
+
+def _names(exprs, ctx_type):
+    """Name nodes of the given context evaluated in the function's own scope (nested functions / lambdas are entered only for their defaults; comprehension variables are their own)"""
+    out = []
+
+    def rec(n, hidden):
+        if isinstance(n, ast.Lambda):
+            for d in n.args.defaults + n.args.kw_defaults:
+                if d is not None:
+                    rec(d, hidden)
+            return                                  # the body runs later
+        if isinstance(n, (ast.FunctionDef, ast.AsyncFunctionDef, ast.ClassDef)) and n not in exprs:
+            return
+        if isinstance(n, (ast.ListComp, ast.SetComp, ast.GeneratorExp, ast.DictComp)):
+            own = {x.id for g in n.generators for x in ast.walk(g.target) if isinstance(x, ast.Name)}
+            for k, g in enumerate(n.generators):
+                rec(g.iter, hidden if k == 0 else hidden | own)
+                for c in g.ifs:
+                    rec(c, hidden | own)
+            for e in ([n.key, n.value] if isinstance(n, ast.DictComp) else [n.elt]):
+                rec(e, hidden | own)
+            return
+        if isinstance(n, ast.Name) and isinstance(n.ctx, ctx_type) and n.id not in hidden:
+            out.append(n)
+        for c in ast.iter_child_nodes(n):
+            rec(c, hidden)
+    for e in exprs:
+        if isinstance(e, (ast.FunctionDef, ast.AsyncFunctionDef, ast.ClassDef)):
+            continue
+        rec(e, frozenset())
+    return out
+
+
+def unreachable_reads(fn):
+    """(statement, name) for every read of a local of `fn` at a statement that no binding of that local can precede on any path"""
+    from .cfg import CFG
+    try:
+        g = CFG(fn)
+    except Exception:
+        return []
+    params = {a.arg for a in fn.args.posonlyargs + fn.args.args + fn.args.kwonlyargs} | ({fn.args.vararg.arg} if fn.args.vararg else set()) | ({fn.args.kwarg.arg} if fn.args.kwarg else set())
+    defs = {}          # name -> set of node ids binding it
+    reads = {}         # node id -> set of names read
+    for k, st in g.nodes.items():
+        bound = set()
+        if isinstance(st, (ast.FunctionDef, ast.AsyncFunctionDef, ast.ClassDef)):
+            bound.add(st.name)
+        elif isinstance(st, (ast.Import, ast.ImportFrom)):
+            bound |= {(a.asname or a.name).split(".")[0] for a in st.names}
+        elif isinstance(st, ast.For):
+            bound |= {x.id for x in ast.walk(st.target) if isinstance(x, ast.Name)}
+        elif isinstance(st, ast.With):
+            bound |= {x.id for i in st.items if i.optional_vars is not None for x in ast.walk(i.optional_vars) if isinstance(x, ast.Name)}
+        elif isinstance(st, ast.Try):
+            bound |= {h.name for h in st.handlers if h.name}
+        bound |= {x.id for x in _names(_header_exprs(st), ast.Store)}
+        bound |= {x.target.id for e in _header_exprs(st) for x in ast.walk(e) if isinstance(x, ast.NamedExpr) and isinstance(x.target, ast.Name)}
+        for b in bound:
+            defs.setdefault(b, set()).add(k)
+        reads[k] = {x.id for x in _names(_header_exprs(st), ast.Load)}
+        if isinstance(st, ast.AugAssign) and isinstance(st.target, ast.Name):
+            reads[k].add(st.target.id)
+    local = set(defs) - params
+    if any(isinstance(n, (ast.Global, ast.Nonlocal)) for n in ast.walk(fn)):
+        return []
+    reach_cache = {}
+
+    def reachable_from(k):
+        if k not in reach_cache:
+            seen, todo = set(), list(g.succ.get(k, ()))
+            while todo:
+                x = todo.pop()
+                if x in seen:
+                    continue
+                seen.add(x)
+                todo.extend(g.succ.get(x, ()))
+            reach_cache[k] = seen
+        return reach_cache[k]
+    out = []
+    for k, names_ in reads.items():
+        for v in sorted(names_ & local):
+            if not any(k in reachable_from(d) for d in defs[v]):
+                out.append((g.nodes[k], v))
+    return out
+
+
 def check_names(ctx, rule=None):
     prop = ctx.prop
     rule = rule or "R%s.N" % prop[1:]
@@ -126,6 +228,9 @@ def check_names(ctx, rule=None):
     top = symtable.symtable(ctl, "<control>", "exec")
     found = sorted(n for _, _, n in unbound_in(top, {x.get_name() for x in top.get_symbols() if x.is_assigned() or x.is_imported() or x.is_namespace()}))
     ctx.need(found == ["missing_name", "other"], "rule N: the positive control reports %s instead of the two unbound names" % found)
+    ctl2 = ast.parse("def f(c, xs):\n    if c:\n        a = 1\n        return a\n    for x in xs:\n        b = x\n    print(b)\n    return a + [y for y in xs][0]\n").body[0]
+    found2 = sorted(n for _, n in unreachable_reads(ctl2))
+    ctx.need(found2 == ["a"], "rule N: the positive control for locals reports %s instead of the one read no assignment reaches" % found2)
     # ---- the compiler's scope analysis per module
     bad = {}
     for mod, (src, tree) in raw.items():
@@ -148,6 +253,12 @@ def check_names(ctx, rule=None):
                 use = next((x for x in ast.walk(node) if isinstance(x, ast.Name) and x.id == name), node)
                 ctx.ob(rule, "%s:%s" % (k, name), False, found="`%s` is read but bound neither in the function, an enclosing function, module %s nor the builtins" % (name, mod),
                        required="every name read is bound (NameError otherwise)", mod=mod, node=use, sig="unbound-" + name)
+    # ---- locals that no assignment can reach (UnboundLocalError): a name bound somewhere in the function, read at a statement that no binding of it leads to
+    for q in sorted(reach):
+        mod, node = index[q]
+        for stmt, name in unreachable_reads(node):
+            ctx.ob(rule, "%s:%s" % (q, name), False, found="`%s` is read at line %d, but no assignment to it in %s can have been executed before (every binding lies on another path)" % (name, stmt.lineno, node.name),
+                   required="a local is bound on some path leading to each of its reads (UnboundLocalError otherwise)", mod=mod, node=stmt, sig="unreached-" + name)
     ctx.ob(rule, "names:%d functions" % len(reach), True, found="%d functions in scope (%d analysed directly), all names bound in %d" % (len(reach), len(seeds), n_ok),
            required="every name read is bound", mod=mods[0], node=None)
     ctx.notes.append("rule N scope: %d functions of %s" % (len(reach), ", ".join(mods)))
